@@ -118,12 +118,18 @@ def check_property_file(pid):
     return res
 
 FORBIDDEN = r"\b(Admitted|admit|Axiom|Parameter|Conjecture|Unset Guard|bypass_check|Admit Obligations|type-in-type)\b"
-def hygiene():
-    """Forbidden constructs anywhere in the development (comments stripped)."""
+def hygiene(dirs=None, pid=None):
+    """Forbidden constructs (comments stripped). dirs=None: the whole development; otherwise the given
+    sub-directories plus Base, Generated and Properties/<pid>.v (the dependency cone of one property)."""
     bad = []
     for root, _, files in os.walk(COQ):
+        rel = os.path.relpath(root, COQ)
         for f in files:
-            if f.endswith(".v"):
+            if dirs is not None:
+                top = rel.split(os.sep)[0]
+                if not (top in dirs or top in ("Base", "Generated") or (top == "Properties" and f == "%s.v" % pid)):
+                    continue
+            if f.endswith(".v") and not f.startswith("Dbg_"):
                 txt = open(os.path.join(root, f)).read()
                 txt = re.sub(r"\(\*.*?\*\)", "", txt, flags=re.S)
                 for m in re.finditer(FORBIDDEN, txt):
@@ -164,7 +170,7 @@ def prepare(engines, targets, pid=None):
             res["drivers"][name] = (dok, dout)
         res["driver_ok"] = all(v[0] for v in res["drivers"].values())
         res["driver_out"] = "\n".join(v[1] for v in res["drivers"].values() if not v[0])
-        res["hygiene"] = hygiene()
+        res["hygiene"] = hygiene([e[1] for e in engines], pid) if pid else hygiene()
         res["proof"] = check_property_file(pid) if pid and os.path.exists(os.path.join(COQ, "Properties", pid + ".v")) else None
     res["prepare_s"] = round(time.time() - t0, 1)
     return res
